@@ -21,6 +21,9 @@ RETS = [
     ("boxed", "Box<u32>", "path:o", False, "Box::new(v)", "Box::new(0)", "3", "0", None),
     ("str_ref", "&'static str", "other", False, '{ let _ = v; "ok" }', '"err"', '"ok"', '"err"', None),
     ("user_named_result", "mine::Result", "path:o.r", False, "mine::Result(v)", "mine::Result(0)", "Result(3)", "Result(0)", None),
+    # a Result whose Ok type is the actor's own type parameter (generic actors only: T = u8, t = 5)
+    ("result_of_param", "Result<T, String>", "path:r", True, "{ let _ = v; Ok(self.t.clone()) }", 'Err("boom".to_string())', "Ok(5)", 'Err("boom")', "boom"),
+    ("std_result_of_param", "std::result::Result<T, String>", "path:o.o.r", True, "{ let _ = v; Ok(self.t.clone()) }", 'Err("boom".to_string())', "Ok(5)", 'Err("boom")', "boom"),
 ]
 
 # (key, attribute text, model form)
@@ -143,6 +146,9 @@ def generate(root, rotation, thorough):
     for ri, ret in enumerate(RETS):
         for ai, attr in enumerate(ATTRS):
             kinds = [(a, m) for a in range(len(ACTORS)) for m in range(len(MSGS))] if thorough else [((ri + ai + rotation) % len(ACTORS), (ri + 2 * ai + rotation) % len(MSGS))]
+            if ret[0].endswith("_of_param"):
+                # needs the actor's type parameter: the generic struct with T = u8
+                kinds = sorted(set((2, m) for (_, m) in kinds))
             for (a, m) in kinds:
                 combos.append((ret, attr, ACTORS[a], MSGS[m]))
     for (ret, attr, actor, msg) in combos:
